@@ -255,7 +255,7 @@ package stdlib
 //@   let k (val_at args 1)
 //@   let t (vty c)
 //@   let ix (bf.int64 (bf_of k))
-//@   let n (Slice.len (pl_seq c))
+//@   let n (len_int c)
 //@   requires (and (wf_ty retType) (or (is_list_ty t) (is_tuple_ty t)))
 //@   ensures[C11] ok: (=> (= result.1 nil.Any) (wf_deep result.0))
 //@   ensures[C13] domain: (=> (is_known c) (= (= result.1 nil.Any) (and (= (bf.acc64 (bf_of k)) 0) (> n 0))))
